@@ -180,4 +180,25 @@ PROPS = {
         assumptions=COMMON_ASSUME,
         partial=[],
     ),
+    "C06": dict(
+        level="proof",
+        exhaustive=True,
+        tables="dvbs2",
+        native_decide_theorems=["no_four_cycles_native", "girth_R1_2"],
+        harness_timeout=3600, model_timeout=3600,
+        trusted_base=[KERNEL + "; PLUS for the theorems no_four_cycles_native and girth_R1_2 (which cites it) the axiom introduced by `native_decide` "
+                      "(`no_four_cycles_native._native.native_decide.ax_*`): the Lean compiler, IR interpreter and runtime are trusted for the evaluation of the "
+                      "4-cycle test on the 21 expanded matrices (kernel evaluation is infeasible at that size)", CORR,
+                      "the standards documents are not available offline: the 'standard' side is the pinned table file lean/LdpcV/Spec/Dvbs2Tables.lean (generated by "
+                      "checklib/gen_tables.py from the repaired source and committed) plus (n, k) from Tables 5a/5b, q from Tables 7a/7b and the column-degree "
+                      "profiles, written into lean/LdpcV/Spec/CodesSpec.lean from memory of ETSI EN 302 307-1; the pins are cross-checked by structure (rows x 360 = k, "
+                      "addresses < n-k, distinct per row, degree profiles, 4-cycle freedom); a transcription error surviving all of those would be trusted"],
+        rule=("EXHAUSTIVE over the 21 code identifiers (enum_iterator::all): Code::h() of every variant is dumped (dimensions, every column list and every row "
+              "list in insertion order, ~32 MB) and compared entry by entry with the model matrix built from the pinned tables; the structural predicates "
+              "(standard n and k, quasi-cyclic law, dual-diagonal parity part, index range, 4-cycle freedom) are re-evaluated on the DUMPED matrix; in addition the "
+              "table text is regenerated from the current source and diffed against the pinned file; Encoder::from_h must take the Staircase branch and encode 3 "
+              "random messages to codewords (reported in harness_extra together with girth_with_max(6) of the rate 1/2 code); non-trivial = every code; distinct = 21"),
+        assumptions=COMMON_ASSUME,
+        partial=[],
+    ),
 }
